@@ -45,6 +45,10 @@ fn main() {
             }
             eprintln!("replayed {} cases", n);
         }
+        "consts" => {
+            println!("ts_min {} ts_max {} ns_max {}", chrono::DateTime::<chrono::Utc>::MIN_UTC.timestamp(), chrono::DateTime::<chrono::Utc>::MAX_UTC.timestamp(), chrono::DateTime::<chrono::Utc>::MAX_UTC.timestamp_subsec_nanos());
+            println!("dur_max_ms {} dur_min_ms {}", chrono::Duration::MAX.num_milliseconds(), chrono::Duration::MIN.num_milliseconds());
+        }
         other => {
             eprintln!("unknown subcommand {}", other);
             std::process::exit(2);
